@@ -26,7 +26,10 @@ EXPLANATION = (
     "mentions (loads and by-reference arguments, through all intermediate calls) must contain the required ones. G2 normalisation: "
     "Line::new = (a/d, b/d, c/d) with one d = len(a, b); between = new(u.y-v.y, v.x-u.x, -(a*u.x+b*u.y)); dist = |a*x+b*y+c|. G3 "
     "ladders: each path's float comparisons are put in the linear form d - T and classified; the variant returned on the path must "
-    "be the one the ladder prescribes; the radii are ordered (swap under a.r < b.r) before R - r is formed. NOT decided: accuracy, "
+    "be the one the ladder prescribes; the radii are ordered (swap under a.r < b.r) before R - r is formed. G4 line-line (added "
+    "after seeded change C10-g): with the crate's functions inlined the returned coordinates are rational functions of the six "
+    "coefficients; a1*x+b1*y+c1 and a2*x+b2*y+c2 must vanish identically (polynomial normal form), every divisor must be a "
+    "constant multiple of the determinant a1*b2-b1*a2, and the Some path must be guarded by the parallel test. NOT decided: accuracy, "
     "kind vs exact geometry."
 )
 UNDECIDED = ["points lie on both primitives within 1e-7 (floating-point accuracy)", "reported kind agrees with exact geometry away from the tolerance band"]
@@ -38,6 +41,8 @@ FIXTURES = [
     ("c10_bad_cc_no_order", "bad", ["G3"]),
     ("c10_bad_cl_eps", "bad", ["G3"]),
     ("c10_bad_cl_zero_normal", "bad", ["G1"]),
+    ("c10_bad_ll_back_substitution", "bad", ["G4"]),
+    ("c10_good_ll_inverse_det", "good", []),
 ]
 
 EPSV = 1e-9
@@ -130,6 +135,69 @@ def _g1_analyser(crate):
     return util.analyser(inl)
 
 
+class _Rat:
+    """float term as a rational function over the input fields: numerator / denominator polynomials, plus
+    every divisor met on the way (each must be non-zero wherever the function is defined)"""
+
+    def __init__(self):
+        from ..polyid import Poly
+
+        self.Poly = Poly
+        self.divisors = []
+        self.opaque = []
+
+    def var(self, t):
+        from ..absint import strip_mem
+
+        return self.Poly.var(strip_mem(t))
+
+    def ev(self, t):
+        from fractions import Fraction
+
+        P = self.Poly
+        one = P.const(1)
+        if not isinstance(t, tuple) or not t:
+            return self.var(("opaque", repr(t))), one
+        h = t[0]
+        if h == "fconst":
+            v = t[1]
+            return P.const(Fraction(v).limit_denominator(10**12) if float(v) == float(Fraction(v).limit_denominator(10**12)) else v), one
+        if h == "int":
+            return P.const(t[1]), one
+        if h == "un" and t[1] == "Neg":
+            n, d = self.ev(t[2])
+            return -n, d
+        if h == "fbin" and t[1] in ("Add", "Sub", "Mul", "Div"):
+            (n1, d1), (n2, d2) = self.ev(t[2]), self.ev(t[3])
+            if t[1] == "Mul":
+                return n1 * n2, d1 * d2
+            if t[1] == "Div":
+                self.divisors.append((n2, d2, t[3]))
+                return n1 * d2, d1 * n2
+            if (d1 - d2).is_zero():
+                return (n1 + n2 if t[1] == "Add" else n1 - n2), d1
+            return (n1 * d2 + n2 * d1 if t[1] == "Add" else n1 * d2 - n2 * d1), d1 * d2
+        if h == "load":
+            return self.var(t), one
+        if h == "proj" and isinstance(t[2], tuple) and t[2] and t[2][0] == "param":
+            return self.var(t), one
+        self.opaque.append(t)
+        return self.var(t), one
+
+
+def _const_multiple(q, D):
+    """q == c * D for a non-zero constant c"""
+    if q.is_zero() or D.is_zero():
+        return False
+    k = next(iter(D.t))
+    if k not in q.t:
+        return False
+    c = q.t[k] / D.t[k] if not isinstance(q.t[k], int) or q.t[k] % D.t[k] else q.t[k] // D.t[k]
+    from ..polyid import Poly
+
+    return (q - D * Poly.const(c)).is_zero()
+
+
 def has(dset, p, path):
     """the dependence set covers input field `path` of parameter p (a prefix covers everything below)"""
     for (q, pth) in dset:
@@ -219,6 +287,70 @@ def check(col, prog, tier, profile, fixture=None):
                 col.ok("G1", b.loc(), key, "both coordinates depend on all six coefficients")
             else:
                 col.violation("G1", key, b.loc(), "the intersection point of two lines does not depend on all six coefficients: %s" % "; ".join(missing[:3]))
+
+    # ---------------- intersect_ll, G4: the point solves both equations and every divisor is the determinant
+    col.rule("G4", "line-line: the returned point satisfies both line equations identically and divides only by (a multiple of) the determinant the parallel test guards", floor=3)
+    b = util.need_body(crate, "util::intersect_ll")
+    par = crate.body("util::parallel")
+    roles = {b.key} | ({par.key} if par is not None else set())
+    inl = [m for m in crate.bodies if not m.is_closure and m.kind in ("Fn", "AssocFn") and m.key not in roles and not util.self_recursive(m) and not (crate.impl_of(m) or {}).get("derived") and not (m.name in ("new", "between") and "Line" in m.path)]
+    I4 = util.analyser(inl, features=("comb", "fncall"))(b)
+    u_, v_ = ("deref", ("param", 1, I4.names.get(1))), ("deref", ("param", 2, I4.names.get(2)))
+    from ..absint import strip_mem as _sm
+    from ..polyid import Poly as _Poly
+
+    def fldp(base, k):
+        return _Poly.var(_sm(("load", ("m0",), ("field", base, k))))
+
+    ua, ub, uc, va, vb, vc = fldp(u_, LA), fldp(u_, LB), fldp(u_, LC), fldp(v_, LA), fldp(v_, LB), fldp(v_, LC)
+    DET = ua * vb - ub * va
+    nsome = 0
+    for st in I4.final_states:
+        ret = util.ret_term(st)
+        if not (ret[0] == "agg" and isinstance(ret[1], tuple) and len(ret[1]) > 3 and ret[1][3] == "Some"):
+            if not (ret[0] == "agg" and isinstance(ret[1], tuple) and len(ret[1]) > 3 and ret[1][3] == "None"):
+                col.violation("G4", "%s|shape" % fk(b), b.loc(), "cannot read what intersect_ll returns on a path: %s" % tstr(ret)[:160])
+            continue
+        nsome += 1
+        p = ret[2][0]
+        if not (p[0] == "agg" and len(p[2]) >= 2):
+            col.violation("G4", "%s|shape" % fk(b), b.loc(), "the returned point is not built from two coordinates: %s" % tstr(p)[:160])
+            continue
+        R = _Rat()
+        (nx, dx), (ny, dy) = R.ev(p[2][PX]), R.ev(p[2][PY])
+        key = "%s|solves-both" % fk(b)
+        e1 = ua * nx * dy + ub * ny * dx + uc * dx * dy
+        e2 = va * nx * dy + vb * ny * dx + vc * dx * dy
+        if e1.is_zero() and e2.is_zero():
+            col.ok("G4", b.loc(), key, "a1*x + b1*y + c1 = 0 and a2*x + b2*y + c2 = 0 hold as identities in the six coefficients")
+        else:
+            col.violation("G4", key, b.loc(), "the point returned for two non-parallel lines does not satisfy %s as an identity in the coefficients: residual %s" % ("the first line's equation" if not e1.is_zero() else "the second line's equation", (e1 if not e1.is_zero() else e2)))
+        key = "%s|divisors" % fk(b)
+        badd = [tstr(t_)[:80] for (n_, d_, t_) in R.divisors if not ((d_ - _Poly.const(1)).is_zero() and _const_multiple(n_, DET))]
+        if R.divisors and not badd:
+            col.ok("G4", b.loc(), key, "every division is by +-(a1*b2 - b1*a2), the quantity the parallel test keeps away from zero")
+        else:
+            col.violation("G4", key, b.loc(), "intersect_ll divides by %s, which is not a constant multiple of the determinant a1*b2 - b1*a2: it can vanish for lines that are not parallel (vertical or horizontal line), the point is then NaN or infinite" % (", ".join(badd) or "nothing recognisable"))
+        # the path is guarded by the parallel test
+        guarded = False
+        for f in st.facts:
+            t_ = f[1]
+            if f[0] == "eq" and f[2] == 0 and isinstance(t_, tuple) and t_ and t_[0] == "call" and par is not None and str(t_[1]).split("::")[-1] == "parallel":
+                guarded = True
+            if f[0] == "eq" and isinstance(t_, tuple) and t_ and t_[0] == "fcmp":
+                for side in (t_[2], t_[3]):
+                    if side[0] == "call" and str(side[1]).endswith("::abs"):
+                        R2 = _Rat()
+                        n_, d_ = R2.ev(side[2][0])
+                        if (d_ - _Poly.const(1)).is_zero() and _const_multiple(n_, DET):
+                            guarded = True
+        key = "%s|guarded" % fk(b)
+        if guarded:
+            col.ok("G4", b.loc(), key, "Some(..) only when the parallel test failed")
+        else:
+            col.violation("G4", key, b.loc(), "intersect_ll returns a point on a path that is not guarded by the parallel test: the determinant can be zero")
+    if nsome == 0:
+        col.violation("G4", "%s|no-point-path" % fk(b), b.loc(), "no path of intersect_ll returning Some(point) could be read")
 
     # ---------------- intersect_cl
     b = util.need_body(crate, "util::intersect_cl")
